@@ -15,7 +15,7 @@ pub fn num_cases(ctx: &Ctx, c11: bool) -> u64 {
         (Mode::Asan | Mode::Tsan, _, true) => 200,
         (Mode::Native, Tier::Quick, false) => 50_000,
         (Mode::Native, Tier::Thorough, false) => 600_000,
-        (Mode::Native, Tier::Quick, true) => 480 + 147,
+        (Mode::Native, Tier::Quick, true) => 900 + 147,
         (Mode::Native, Tier::Thorough, true) => 6000,
     }
 }
@@ -219,6 +219,15 @@ pub fn run_c11(ctx: &mut Ctx, idx: u64) {
         gen::dense_case(&mut rng, kind, r, c, e, None)
     } else if ctx.slow() {
         gen::small_case(&mut rng, variant, kind, true)
+    } else if rng.chance(1, 6) {
+        // long chains of single-child states fill blocks up to their last few slots
+        gen::long_case(&mut rng, variant, kind)
+    } else if rng.chance(1, 4) {
+        gen::random_chain_case(&mut rng, kind)
+    } else if rng.chance(1, 3) {
+        gen::dense_random(&mut rng, kind)
+    } else if rng.chance(1, 12) {
+        gen::hub_case(&mut rng, kind)
     } else if rng.chance(3, 4) {
         let cap = match (ctx.mode, ctx.tier) {
             (Mode::Native, Tier::Thorough) => 10_000,
